@@ -897,6 +897,7 @@ func main() {
 	levelOut := flag.String("level", "", "output Lean file: translated discardStaleEntries")
 	dbOut := flag.String("db", "", "output Lean file: translated DB.search")
 	lsmOut := flag.String("lsm", "", "output Lean file: translated searchLowerBound")
+	tableOut := flag.String("table", "", "output Lean file: translated binary searches")
 	flag.Parse()
 	if *locktable != "" {
 		genLockTable(*repo, *locktable)
@@ -921,6 +922,9 @@ func main() {
 	}
 	if *lsmOut != "" {
 		genLSM(*repo, *lsmOut)
+	}
+	if *tableOut != "" {
+		genTable(*repo, *tableOut)
 	}
 	if *skeleton != "" {
 		genSkeleton(*repo, *skeleton)
